@@ -219,7 +219,18 @@ class Lowerer:
         cn = (base + '_' if base else '') + name
         if self.overloaded(q):
             cn += '__' + self.sig_suffix(f)
+        if self.is_const_method(f) and self.has_nonconst_twin(f, q):
+            cn += '__const'
         return cn
+    @staticmethod
+    def is_const_method(f):
+        return bool(re.search(r'\)\s*const\b', f.get('type', {}).get('qualType', '')))
+    def has_nonconst_twin(self, f, q):
+        ss = self.sig_suffix(f)
+        for g in self.ix.fn_by_id.values():
+            if g is not f and g.get('kind') == 'CXXMethodDecl' and self._qname_of(g) == q and self.sig_suffix(g) == ss and not self.is_const_method(g):
+                return True
+        return False
     def overloaded(self, q):
         sigs = set()
         for f in self.ix.fn_by_id.values():
@@ -564,7 +575,13 @@ class Lowerer:
             name = self.opname(name)
         suffix = self.argsuffix(args)
         cname = '%s_%s%s' % (cls, name, ('__' + suffix) if suffix else '')
-        if callee.get('isArrow'):
+        if name in ITER_METHODS:
+            # iterators refer to their container: the receiver always goes by pointer; the const overload
+            # (returning a const_iterator) is a distinct model function
+            if const_method: cname += '_const'
+            recv = self.e(base) if callee.get('isArrow') else self.addr(base)
+            self.rule('iterator-producing method: receiver by pointer')
+        elif callee.get('isArrow'):
             recv = self.e(base)
         elif const_method and not self.is_repo_class(bt):
             recv = self.e(base)          # by value
@@ -836,6 +853,21 @@ class Lowerer:
         fname = 'find_if_%s' % lname
         self.find_ifs.append((fname, lname, it, caps))
         self.cur.callees.add(fname)
+        if fname not in self.fns:
+            capdecl = ''.join(', ' + c[1] for c in caps)
+            capuse = ''.join(c[0] + ', ' for c in caps)
+            info = FnInfo(fname, n, self.cur.qname + '::<std::find_if #%s>' % lname.rsplit('_', 1)[-1])
+            info.line = src_line(n); info.file = self.cur.file
+            info.loops = [{'ordinal': 0, 'kind': 'while (std::find_if canonical loop)', 'line': src_line(n)}]
+            info.callees = {lname}
+            info.rules = {'std::find_if canonical loop': 1}
+            info.proto = 'static %s %s(%s first, %s last%s)' % (it.name, fname, it.name, it.name, capdecl)
+            info.text = (info.proto + '\n{\n    FIND_IF_REQUIRES(%s, first, last);\n'
+                    '    while (%s_op_ne(first, last))\n    LOOP_%s_0\n    {\n'
+                    '        if (%s(%s%s_op_deref_value(first))) return first;\n'
+                    '        %s_op_inc(&first);\n    }\n    return last;\n}\n' % (it.name, it.name, fname, lname, capuse, it.name, it.name))
+            info.is_find_if = True
+            self.fns[fname] = info
         self.rule('std::find_if -> canonical loop with reachable-range precondition')
         capargs = [c[2] for c in caps]
         return '%s(%s)' % (fname, ', '.join([self.e(first), self.e(last)] + capargs))
@@ -852,11 +884,10 @@ class Lowerer:
         if not call: raise Unsupported('lambda without call operator')
         call = call[-1]
         line = src_line(l)
-        lname = 'lambda_%s_L%s' % (self.cur.cname, line)
+        # named by ordinal inside the enclosing function (not by line: edits above must not rename it)
         k = 0
-        base = lname
-        while lname in self.lambda_names:
-            k += 1; lname = '%s_%d' % (base, k)
+        while 'lambda_%s_%d' % (self.cur.cname, k) in self.lambda_names: k += 1
+        lname = 'lambda_%s_%d' % (self.cur.cname, k)
         self.lambda_names.add(lname)
         caps = []
         fields = [c for c in cls.get('inner', []) if c.get('kind') == 'FieldDecl']
@@ -977,8 +1008,10 @@ class Lowerer:
             binds_temp = core['kind'] == 'MaterializeTemporaryExpr' or not self.is_lvalue(core)
             const = is_const(t.q)
             vt = t
-            if binds_temp or (const and self.is_class_type(vt) and not self.is_repo_class(vt)) or (const and not self.is_class_type(vt)):
-                self.rule('const-reference local -> copy')
+            # a const reference bound to a temporary (or to a scalar) is a copy; bound to an lvalue it stays an
+            # alias (pointer), so that mutations of the referenced object through other paths are seen
+            if binds_temp or (const and not self.is_class_type(vt)):
+                self.rule('const-reference local bound to a temporary/scalar -> copy')
                 text = ind + '%s = %s;\n' % (self.value_decl(t, name), self.e(i0))
                 return self.with_temps_decl(mark, ind, text)
             self.refs.add(v['id']); self.rule('reference local -> pointer')
@@ -1285,15 +1318,16 @@ class Lowerer:
             capdecl = ''.join(', ' + c[1] for c in caps)
             capuse = ''.join(c[0] + ', ' for c in caps)
             out += ('static %s %s(%s first, %s last%s)\n' % (it.name, fname, it.name, it.name, capdecl) +
-                    '{\n    FIND_IF_REQUIRES(first, last);\n'
+                    '{\n    FIND_IF_REQUIRES(%s, first, last);\n'
                     '    while (%s_op_ne(first, last))\n    LOOP_%s_0\n    {\n'
                     '        if (%s(%s%s_op_deref_value(first))) return first;\n'
-                    '        %s_op_inc(&first);\n    }\n    return last;\n}\n' % (it.name, fname, lname, capuse, it.name, it.name))
+                    '        %s_op_inc(&first);\n    }\n    return last;\n}\n' % (it.name, it.name, fname, lname, capuse, it.name, it.name))
         return out
 
 ENUM_MODEL_TYPES = {'QtMsgType', 'Handler_HandlerType', 'QIODevice_OpenModeFlag', 'QDir_Filter', 'QDir_SortFlag',
                     'Qt_CaseSensitivity', 'Qt_DateFormat', 'QEvent_Type', 'Qt_SplitBehaviorFlags', 'QJsonDocument_JsonFormat',
                     'QEvent_Type', 'Qt_EventPriority', 'QSettings_Format', 'QUuid_StringFormat', 'Qt_TimeSpec'}
+ITER_METHODS = {'begin', 'end', 'cbegin', 'cend', 'constBegin', 'constEnd', 'rbegin', 'rend', 'crbegin', 'crend'}
 RAII_TYPES = {'QMutexLocker', 'QMutexLocker_QMutex', 'QMutexLocker_QRecursiveMutex'}
 C_KEYWORDS = {'stdout', 'stderr', 'stdin', 'register', 'restrict', 'auto', 'default', 'signed', 'unsigned', 'inline'}
 
